@@ -84,7 +84,66 @@ fn viol(frag: &mut Frag, prop: &str, key: &str, what: String, case: Value) {
         frag.violation("c08|union-variant-selected-by-id-only", &format!("[{}] {}", key.replace("MISTYPED-UNION", "mistyped union variant"), what), case);
         return;
     }
+    // one defect, one key per property: with keep_unknown_fields the sync decoder
+    // emitted for a struct / exception that is named directly as a method
+    // argument, return or throws type takes "the rest of the buffer minus two
+    // bytes" as unknown fields once all its declared fields were seen. Every
+    // observation on a type whose decoding runs such a decoder is attributed to it.
+    if crate::case().keep && matches!(prop, "c02" | "c08" | "c09" | "c11" | "c12" | "c13") {
+        if let Some(t) = case.get("target_idx").and_then(|v| v.as_u64()) {
+            // (the async decoders do not have that code)
+            let async_only = matches!(prop, "c09" | "c19") && key.contains("async_");
+            if !async_only && arg_fastpath_target(t as usize) {
+                frag.violation(&format!("{}|keep|arg-type-decoder-takes-rest-of-buffer", prop), &format!("[{}] {}", key, what), case);
+                return;
+            }
+        }
+    }
     frag.violation(&format!("{}|{}", prop, key), &what, case);
+}
+
+/// deaths attributed to the keep-mode argument-type decoder are filed under its
+/// key; returns the deaths that remain to be judged by the check's own rule
+fn split_fastpath_deaths(prop: &str, r: &mut Report, deaths: &[Death]) -> Vec<Death> {
+    let mut rest = vec![];
+    for d in deaths {
+        let async_only = matches!(prop, "c09" | "c19") && d.label.contains("async_");
+        if !async_only && death_on_arg_fastpath(d) {
+            r.frag.violation(&format!("{}|keep|arg-type-decoder-takes-rest-of-buffer", prop), &format!("[death:{}] worker died in {}", d.class(), d.label), death_json(d));
+        } else {
+            rest.push(d.clone());
+        }
+    }
+    rest
+}
+
+/// a worker death whose label names a target whose sync decoding runs the
+/// keep-mode argument-type decoder (see `viol`)
+fn death_on_arg_fastpath(d: &Death) -> bool {
+    let c = case();
+    if !c.keep {
+        return false;
+    }
+    let mut best: Option<(usize, usize)> = None; // (name length, target)
+    for t in 0..c.targets.len() {
+        let n = tname(t);
+        let mut from = 0;
+        while let Some(p) = d.label[from..].find(&n) {
+            let end = from + p + n.len();
+            let next = d.label[end..].chars().next();
+            if !next.map(|ch| ch.is_alphanumeric() || ch == '_').unwrap_or(false) && best.map(|b| n.len() > b.0).unwrap_or(true) {
+                best = Some((n.len(), t));
+            }
+            from = end;
+        }
+    }
+    best.map(|b| arg_fastpath_target(b.1)).unwrap_or(false)
+}
+
+fn arg_fastpath_target(t: usize) -> bool {
+    static M: OnceLock<Vec<bool>> = OnceLock::new();
+    let c = case();
+    M.get_or_init(|| c.targets.iter().map(|tg| sem::reaches_arg_def(&c.schema, &tg.shape)).collect())[t]
 }
 
 /// allocation-shaped observations on generated decoders share one key per
@@ -263,6 +322,7 @@ impl Check for C02 {
         replay_common(ctx, cj, frag, |ctx, t, k, frag| c02_one(ctx, t, k, frag))
     }
     fn finish(&self, _ctx: &Ctx, r: &mut Report, deaths: &[Death]) {
+        let deaths = &split_fastpath_deaths("c02", r, deaths)[..];
         deaths_as_violations(r, deaths);
         r.assume("values enter the typed world only as bytes from the reference encoder and leave it as bytes read by the reference decoder; NaN doubles are not generated (typed equality is PartialEq)");
         r.assume("expected value = the generated value with absent default-requiredness fields and absent optional fields that have an IDL default filled in (schema model), compared as id-keyed trees");
@@ -615,6 +675,7 @@ impl Check for C08 {
         replay_common(ctx, cj, frag, |ctx, t, k, frag| c08_one(ctx, t, k, frag))
     }
     fn finish(&self, _ctx: &Ctx, r: &mut Report, deaths: &[Death]) {
+        let deaths = &split_fastpath_deaths("c08", r, deaths)[..];
         for d in deaths {
             // sub-marker: "c08 <type> <wp> op=<op> <hex>"
             let sub = d.label.split("::").nth(1).unwrap_or("").trim().to_string();
@@ -731,6 +792,7 @@ impl Check for C13 {
         replay_common(ctx, cj, frag, |ctx, t, k, frag| c13_one(ctx, t, k, frag))
     }
     fn finish(&self, _ctx: &Ctx, r: &mut Report, deaths: &[Death]) {
+        let deaths = &split_fastpath_deaths("c13", r, deaths)[..];
         for d in deaths {
             let sub = d.label.split("::").nth(1).unwrap_or("").trim().to_string();
             let mut it = sub.split_whitespace();
@@ -793,7 +855,7 @@ fn c09_one(ctx: &Ctx, t: usize, k: u64, frag: &mut Frag) {
                 frag.eval();
                 frag.count(&format!("{}.{}", who, f.kind));
                 frag.distinct(fnv1a(format!("{}|{}|{}|{}", who, f.kind, f.at, shape_kind(&c.targets[t].shape)).as_bytes()));
-                let cj = || json!({"corpus": c.corpus, "config": c.config, "target": c.targets[t].name, "wp": wp.name(), "async": is_async, "fault": f.desc, "input_hex": hex(&f.bytes), "base_hex": base_hex, "value": x.render(120)});
+                let cj = || json!({"corpus": c.corpus, "config": c.config, "target": c.targets[t].name, "target_idx": t, "wp": wp.name(), "async": is_async, "fault": f.desc, "input_hex": hex(&f.bytes), "base_hex": base_hex, "value": x.render(120)});
                 let start = alloc::window_start();
                 let c0 = thread_cpu_ns();
                 let r = guarded(|| {
@@ -893,7 +955,7 @@ fn c19_one(ctx: &Ctx, t: usize, k: u64, frag: &mut Frag) {
                         "c19",
                         &format!("leak|{}", via),
                         format!("[{}] {}: {} bytes stay live per failed decode (input {} bytes, fault {})", who, tname(t), per, f.bytes.len(), f.desc),
-                        json!({"corpus": c.corpus, "config": c.config, "target": c.targets[t].name, "wp": wp.name(), "async": is_async, "fault": f.desc, "input_hex": hex(&f.bytes), "base_hex": base_hex, "value": x.render(160), "live_growth_per_decode": per}),
+                        json!({"corpus": c.corpus, "config": c.config, "target": c.targets[t].name, "target_idx": t, "wp": wp.name(), "async": is_async, "fault": f.desc, "input_hex": hex(&f.bytes), "base_hex": base_hex, "value": x.render(160), "live_growth_per_decode": per}),
                     );
                 }
             }
@@ -957,6 +1019,7 @@ impl Check for C09 {
         }
     }
     fn finish(&self, _ctx: &Ctx, r: &mut Report, deaths: &[Death]) {
+        let deaths = &split_fastpath_deaths("c09", r, deaths)[..];
         for d in deaths {
             let sub = d.label.split("::").nth(1).unwrap_or("").trim().to_string();
             let who = sub.split_whitespace().nth(1).unwrap_or("?");
@@ -1123,6 +1186,7 @@ impl Check for C11 {
         replay_common(ctx, cj, frag, |ctx, t, k, frag| c11_one(ctx, t, k, frag))
     }
     fn finish(&self, _ctx: &Ctx, r: &mut Report, deaths: &[Death]) {
+        let deaths = &split_fastpath_deaths("c11", r, deaths)[..];
         for d in deaths {
             r.frag.violation(&format!("c11|gen|death|{}", d.class()), &format!("worker died ({}) in {}", d.class(), d.label), death_json(d));
         }
@@ -1224,6 +1288,7 @@ impl Check for C12 {
         replay_common(ctx, cj, frag, |ctx, t, k, frag| c12_one(ctx, t, k, frag))
     }
     fn finish(&self, _ctx: &Ctx, r: &mut Report, deaths: &[Death]) {
+        let deaths = &split_fastpath_deaths("c12", r, deaths)[..];
         deaths_as_violations(r, deaths);
         for wp in SAFE_WP {
             r.floor(&format!("gen.async_{}.schedules", wp.name()), 200);
